@@ -2,6 +2,7 @@
 # Developer tool: confirm that a seeded break (a) applies and compiles, (b) passes the repository's own test suite,
 # (c) makes its demonstration fail while the demonstration passes on the unchanged tree.
 #   selftest/verify_mutant.sh <dir-with-patch.diff-and-demo> [crate-for-demo]
+# DEMO_CARGO_ARGS (env) adds cargo arguments for the demonstration run, e.g. "--no-default-features --features core".
 # Prints one line per fact and a final VERIFIED / NOT-VERIFIED line.  Uses a scratch worktree that is removed afterwards;
 # the shared build directory /tmp/vmut-target is reused between calls (remove it when done).
 set -u
@@ -19,14 +20,14 @@ pkg=$(grep -m1 '^name' "$wt/crates/$crate/Cargo.toml" | sed 's/.*"\(.*\)".*/\1/'
 [ "$pkg" = "anstream" ] && pkg="anstream@0.6.18"
 if [ -n "$demo" ]; then
   mkdir -p "$wt/crates/$crate/tests"; cp "$demo" "$wt/crates/$crate/tests/vdemo.rs"
-  if (cd "$wt" && cargo test --offline -q --manifest-path "$wt/crates/$crate/Cargo.toml" --test vdemo >/tmp/vver-demo0.log 2>&1); then echo "demo passes on unchanged tree: yes"; else echo "demo passes on unchanged tree: NO ($(tail -3 /tmp/vver-demo0.log | tr '\n' ' ' | cut -c1-200))"; ok=0; fi
+  if (cd "$wt" && cargo test --offline -q --manifest-path "$wt/crates/$crate/Cargo.toml" ${DEMO_CARGO_ARGS:-} --test vdemo >/tmp/vver-demo0.log 2>&1); then echo "demo passes on unchanged tree: yes"; else echo "demo passes on unchanged tree: NO ($(tail -3 /tmp/vver-demo0.log | tr '\n' ' ' | cut -c1-200))"; ok=0; fi
 else
   echo "no demo*.rs found"; ok=0
 fi
 if ! git -C "$wt" apply "$patch"; then echo "patch applies: NO"; echo "NOT-VERIFIED $dir"; exit 1; fi
 echo "patch applies: yes ($(git -C "$wt" diff --stat | tail -1 | sed 's/^ *//'))"
 if [ -n "$demo" ]; then
-  if (cd "$wt" && cargo test --offline -q --manifest-path "$wt/crates/$crate/Cargo.toml" --test vdemo >/tmp/vver-demo1.log 2>&1); then echo "demo fails with the change: NO (it passes)"; ok=0; else
+  if (cd "$wt" && cargo test --offline -q --manifest-path "$wt/crates/$crate/Cargo.toml" ${DEMO_CARGO_ARGS:-} --test vdemo >/tmp/vver-demo1.log 2>&1); then echo "demo fails with the change: NO (it passes)"; ok=0; else
     if grep -q "could not compile\|^error\[E" /tmp/vver-demo1.log; then echo "demo fails with the change: COMPILE ERROR"; ok=0; else echo "demo fails with the change: yes"; fi; fi
   rm -f "$wt/crates/$crate/tests/vdemo.rs"
 fi
